@@ -76,7 +76,7 @@ var nearNum = map[string]string{
 	"12345678901234567890123": "12345678901234567890124", "1e400": "1e401", "1e-400": "1e-401",
 	"123456789012345678": "123456789012345679", "1": "1.0", "1.0": "1", "2.50": "2.5", "1E+2": "100", "-0": "0", "0": "-0",
 }
-var strPool = []string{"", "x", "hello", "<b>&", "  ", "a/b", "é", "\U0001F600", "q\"q", "back\\slash", "\x01\x1f", "tab\t", "é", "nul\x00"}
+var strPool = []string{"", "x", "hello", "100%d off", "50%", "%s%v%%", "<b>&", "  ", "a/b", "é", "\U0001F600", "q\"q", "back\\slash", "\x01\x1f", "tab\t", "é", "nul\x00"}
 
 type genOpts struct {
 	depth      int
@@ -491,4 +491,12 @@ func randBytes() []byte {
 		b[i] = alphabet[rng.Intn(len(alphabet))]
 	}
 	return b
+}
+
+func sortStrings(s []string) {
+	for i := 1; i < len(s); i++ {
+		for j := i; j > 0 && s[j] < s[j-1]; j-- {
+			s[j], s[j-1] = s[j-1], s[j]
+		}
+	}
 }
